@@ -5,3 +5,7 @@ use crate::runner::Ctx;
 pub fn run_mmio(_ctx: &Ctx) -> (Vec<Case>, String) {
     (vec![], String::new())
 }
+
+pub fn run_mmio_c09(_ctx: &Ctx) -> (Vec<Case>, String) {
+    (vec![], String::new())
+}
